@@ -1,4 +1,5 @@
 import SR.Proofs.MarketRun
+import SR.Proofs.MarketTerm
 /-!
 # C05 — parallel checking is schedule-independent, loses no work, terminates
 
@@ -144,6 +145,41 @@ theorem C05_stop_after_drop (k tc : Nat) (h : tc ≤ k) (ms : List Step)
     · exact Or.inl hs.2.symm
     · exact Or.inr hs.2.symm
   · simp at hs
+
+/-- **Shutdown terminates (measure).** Once a clone has been dropped, every step a worker can still take —
+    leave (`drop`: what follows the empty answer of `pop`, the `is_shut_down()` check, a finish condition, a
+    panic) or wake up after a notification — strictly decreases the lexicographic measure
+    (workers not yet exited, workers waiting, workers notified but not yet woken), which is well-founded.
+    With `C05_shutdown_progress` (such a step is enabled as long as a worker is left) every fair schedule
+    of the shutdown phase ends with all workers exited. Spurious wake-ups and drops of further clones are
+    not measured (they are finitely many in every real run).
+
+    PARTIAL with respect to the property's "always terminates": the full statement — under a fair
+    scheduler every run of the composed checker + market on a finite model terminates — also needs
+    bounded work while the market is open (each evaluation consumes a job, jobs are created only for
+    states inserted into the finite `generated` set): that is the composition with the checker machine
+    (`SR.Checker.Full`, lead) and OS fairness (trusted base). -/
+theorem C05_shutdown_measure_partial (k tc : Nat) (h : tc ≤ k) (ms : List Step)
+    (hd : (mrun (init k tc) ms).dropped = true) (w : Nat) (s' : MState) :
+    WellFounded MLt ∧
+    (step (mrun (init k tc) ms) (.drop w) = some s' →
+      MLt (shutdownMeasure s') (shutdownMeasure (mrun (init k tc) ms))) ∧
+    ((mrun (init k tc) ms).pcs[w]? = some (.parked true) → step (mrun (init k tc) ms) (.wake w) = some s' →
+      MLt (shutdownMeasure s') (shutdownMeasure (mrun (init k tc) ms))) := by
+  have inv := (minv_mrun ms (minv_init k tc h)).p
+  exact ⟨mlt_wf, shutdown_drop_decreases _ _ w, shutdown_wake_decreases _ _ w (inv.dropped hd).2⟩
+
+/-- **Shutdown makes progress**: as long as some worker has neither exited nor is running, i.e. is waiting,
+    a running worker (whose `drop` step is enabled) or a notified one (whose `wake` step is enabled)
+    exists; and a running worker can always leave. -/
+theorem C05_shutdown_progress (k tc : Nat) (h : tc ≤ k) (ms : List Step) (w : Nat) (b : Bool)
+    (hw : (mrun (init k tc) ms).pcs[w]? = some (.parked b)) :
+    (∃ v, (mrun (init k tc) ms).pcs[v]? = some .running ∧ (step (mrun (init k tc) ms) (.drop v)).isSome = true)
+    ∨ (∃ v, (mrun (init k tc) ms).pcs[v]? = some (.parked true) ∧ (step (mrun (init k tc) ms) (.wake v)).isSome = true) := by
+  rcases C05_no_lost_wakeup k tc h ms with hn | ⟨v, hv⟩ | ⟨v, hv⟩
+  · exact absurd ⟨w, b, hw⟩ hn
+  · left; exact ⟨v, hv, by simp [step, stepR, hv]⟩
+  · right; exact ⟨v, hv, by simp [step, stepR, hv]⟩
 
 /-! ### non-vacuity and what is NOT true -/
 
